@@ -70,6 +70,9 @@ type QParams struct {
 	Rcv       int `json:"rcv"`
 	Reports   int `json:"reports"`
 	ReleaseMs int `json:"release_ms"`
+	// Perio: instead, the arrangement "report queue full, a periodic tick being handed over, and the held request goes on to
+	// remove a periodic URR" on the real driver with its periodic server (see runPerioArranged)
+	Perio bool `json:"perio,omitempty"`
 	// Buffered: so many packets have been handed up for buffering for one PDR before (its queue holds 512; a 513th is dropped)
 	Buffered int `json:"buffered,omitempty"`
 }
@@ -622,8 +625,111 @@ func runChild(p Params) (res Result) {
 // runQueued: "whatever is in flight at that moment" with the moment chosen by the harness - a stop while the receive queue
 // (and the report queue) is full and the loop is busy.  The loop must work off what is queued, see that the receiver has
 // closed, and return; receiver, producers and timers must finish.
+// runPerioArranged: the event loop is held inside the first data-plane call of a Modification (Create QER) that will go on to
+// remove a periodic URR; meanwhile producers fill the report queue (128) and a tick of the URR's period is served, so that the
+// periodic server waits for room in that queue; the call returns, Stop() follows.  Loop, periodic server, producers and timers
+// must all finish.
+func runPerioArranged(p Params) (res Result) {
+	q := *p.Queued
+	d, err := fullstack.NewDriver(fullstack.Opts{})
+	if err != nil {
+		res.Inconclusive = err.Error()
+		return
+	}
+	st, err := stack.New(stack.Opts{Driver: d.G, Nodes: 1, MaxRetrans: uint8(p.MaxRetrans), Retrans: time.Duration(max(p.RetransMs, 1)) * time.Millisecond, Net2: stack.Net2FromEnv(117)})
+	if err != nil {
+		res.Inconclusive = err.Error()
+		return
+	}
+	r := stack.NewRunner(st, nil)
+	rules := []stack.RuleOp{{Verb: "create", Kind: "URR", ID: 1, Method: 2, Trig: 0x03, Period: 3600}, {Verb: "create", Kind: "URR", ID: 2, Method: 2, Trig: 0x02},
+		{Verb: "create", Kind: "PDR", ID: 1, Prec: 1, URRs: []uint32{1, 2}}}
+	for _, op := range []stack.Op{{Kind: "assoc", Peer: 0, Node: 0, Sess: -1}, {Kind: "est", Peer: 0, Node: 0, Sess: -1, CP: 0x31, Rules: rules}} {
+		if o := r.Step(op); o.Dead != nil || o.Stuck {
+			res.Inconclusive = "prefix failed"
+			return
+		}
+	}
+	if len(r.Sess) == 0 || !r.Sess[0].Known {
+		res.Inconclusive = "prefix session not established"
+		return
+	}
+	up := r.Sess[0].UP
+	d.K.MainHold.Store(true)
+	defer d.K.MainHold.Store(false)
+	b, err := r.Build(stack.Op{Kind: "mod", Peer: 0, Sess: 0, Rules: []stack.RuleOp{{Verb: "create", Kind: "QER", ID: 5, QFI: 5}, {Verb: "remove", Kind: "URR", ID: 1}}}, 0x7778)
+	if err != nil {
+		panic(err)
+	}
+	if err := st.Send(0, b); err != nil {
+		panic(err)
+	}
+	for i := 0; i < 50000 && d.K.MainHeld.Load() == 0; i++ {
+		time.Sleep(100 * time.Microsecond)
+	}
+	if d.K.MainHeld.Load() == 0 {
+		res.Inconclusive = "the Modification never reached the data plane"
+		return
+	}
+	var pwg sync.WaitGroup
+	n := max(q.Reports, 140)
+	for i := 0; i < n; i++ {
+		pwg.Add(1)
+		go func() {
+			defer pwg.Done()
+			st.Srv.NotifySessReport(report.SessReport{SEID: up, Reports: []report.Report{report.USAReport{URRID: 2, USARTrigger: report.UsageReportTrigger{Flags: 2}}}})
+		}()
+	}
+	for t1 := time.Now(); time.Since(t1) < 5*time.Second; {
+		if _, sr, _ := st.Srv.VerifQueues(); sr >= 128 {
+			break
+		}
+		time.Sleep(200 * time.Microsecond)
+	}
+	d.G.VerifPerio().VerifTick(3600 * time.Second)
+	time.Sleep(30 * time.Millisecond) // the periodic server has its report and waits for room in the loop's queue
+	res.Posted, res.Requests = int64(n), 1
+	d.K.MainHold.Store(false)
+	time.Sleep(time.Duration(q.ReleaseMs) * time.Millisecond)
+	st.Srv.Stop()
+	d.Detach()
+	done := make(chan struct{})
+	go func() { st.WaitGroup().Wait(); close(done) }()
+	select {
+	case <-done:
+	case <-time.After(15 * time.Second):
+		state, frame, _ := stack.LoopState()
+		res.Key = "stop-hang:" + frame
+		res.Violation = fmt.Sprintf("report queue full, a periodic tick being handed over, and a Modification going on to remove a periodic URR; Stop() %d ms after its data-plane call returned: 15 s later the server's goroutines have not finished (event loop: %s at %s)", q.ReleaseMs, state, frame)
+		return
+	}
+	pdone := make(chan struct{})
+	go func() { pwg.Wait(); close(pdone) }()
+	select {
+	case <-pdone:
+	case <-time.After(5 * time.Second):
+		res.Key = "stop-hang:internal/pfcp.(*PfcpServer).NotifySessReport"
+		res.Violation = "5 s after the server stopped report producers are still blocked inside NotifySessReport"
+		return
+	}
+	if err := d.Close(); err != nil {
+		res.Key = "stop-hang:internal/forwarder/perio"
+		res.Violation = fmt.Sprintf("10 s after the driver was closed its periodic server or a ticker goroutine is still running: %v", err)
+		return
+	}
+	if st.Dead != nil {
+		res.Key, res.Violation = st.Dead.Key, fmt.Sprintf("UPF fatal exit: %.600s", st.Dead.Msg)
+		return
+	}
+	res.OK = true
+	return
+}
+
 func runQueued(p Params) (res Result) {
 	q := *p.Queued
+	if q.Perio {
+		return runPerioArranged(p)
+	}
 	d := stack.NewModelDriver()
 	gate := make(chan struct{})
 	entered := make(chan struct{}, 1)
@@ -946,6 +1052,10 @@ func account(p Params, r Result, races []string, out string) {
 			vcore.E.NonTrivial(vcore.JSON(p))
 			vcore.E.Sample("arranged", p)
 		}
+		if p.Queued.Perio {
+			vcore.E.Class("stop_with_a_tick_waiting_for_the_report_queue_and_a_periodic_urr_being_removed")
+			vcore.E.NonTrivial(vcore.JSON(p))
+		}
 		if p.Queued.Buffered > 512 {
 			vcore.E.Class("stop_after_a_packet_queue_overflowed")
 		}
@@ -1016,7 +1126,7 @@ func TestC17(t *testing.T) {
 		return
 	}
 	// stops whose in-flight work the harness arranges: receive queue at, below and beyond its capacity
-	for _, qp := range []QParams{{Rcv: 512, ReleaseMs: 20}, {Rcv: 700, Reports: 200, ReleaseMs: 2}, {Rcv: 40, Reports: 129}, {Rcv: 10, Buffered: 513, ReleaseMs: 2}} {
+	for _, qp := range []QParams{{Rcv: 512, ReleaseMs: 20}, {Rcv: 700, Reports: 200, ReleaseMs: 2}, {Rcv: 40, Reports: 129}, {Rcv: 10, Buffered: 513, ReleaseMs: 2}, {Perio: true, ReleaseMs: 0}, {Perio: true, ReleaseMs: 50}} {
 		qp := qp
 		p := Params{Procs: 4, RetransMs: 2, MaxRetrans: 1, StopMode: "arranged", Queued: &qp}
 		r, races, out := child(p)
